@@ -63,6 +63,9 @@ def shards(tier, seed):
             if kind == "actisense" and fault == "write_error":
                 continue            # this client has no wire format for sending (C19 covers send on it)
             out.append({"name": f"{kind}-{fault}", "kind": kind, "what": "fault", "fault": fault, "scb": "ok", "tier": tier, "seed": seed})
+            if fault in ("eof", "reset", "write_error"):
+                # network mapping on: the seeding clients send ISO requests 2, 4 and 6 s after every (re)connect
+                out.append({"name": f"{kind}-{fault}-mapping", "kind": kind, "what": "fault", "fault": fault, "scb": "ok", "mapping": True, "tier": tier, "seed": seed})
             if fault in ("eof", "reset") and kind != "waveshare":
                 out.append({"name": f"{kind}-{fault}-conformance-real-tcp", "kind": kind, "what": "conformance", "fault": fault, "tier": tier, "seed": seed})
             # a status callback that suspends widens every window in which connect() still holds its lock
@@ -82,7 +85,21 @@ def make_send_message(kind):
     return m
 
 
-def fault_session(kind, fault, step, settle=40.0, scb="ok", second=None):
+def claim_packet(kind, src):
+    """Address claim from `src` in the client's wire format (needed when network mapping withholds unclaimed sources)."""
+    from ..hist import claim_name
+    ident = wire.can_id(6, 60928, src, 255)
+    data = claim_name(1000 + src, 1851).to_bytes(8, "little")
+    if kind == "ebyte":
+        return wire.ebyte_frame(ident, data)
+    if kind == "waveshare":
+        return wire.usb_frame(ident, data)
+    if kind == "yd":
+        return wire.yd_line(ident, data).encode()
+    return (wire.actisense_line(6, 60928, src, 255, data) + "\r\n").encode()
+
+
+def fault_session(kind, fault, step, settle=40.0, scb="ok", second=None, mapping=False):
     """second = (fault kind, virtual seconds after the start) injects another fault after the first recovery."""
     info = {"injected": False, "inject_step": None, "inject_time": None, "conn_at_fault": None, "second_injected": False}
 
@@ -118,7 +135,7 @@ def fault_session(kind, fault, step, settle=40.0, scb="ok", second=None):
             # every accepted connection delivers one frame tagged with its connection number
             def later():
                 if not conn.lost and not conn.closing:
-                    conn.feed(packet(kind, 100 + conn.id))
+                    conn.feed((claim_packet(kind, 100 + conn.id) if mapping else b"") + packet(kind, 100 + conn.id))
             loop.call_later(0.2, later)
         sim.on_accept.append(on_accept)
         loop.at_step(step, inject)
@@ -140,7 +157,7 @@ def fault_session(kind, fault, step, settle=40.0, scb="ok", second=None):
         await asyncio.sleep(1.0)
         info["elapsed"] = loop.time() - 1000.0
         await sim.call("close")
-    sim, stats = simgw.run_session(kind, scenario, status_cb=scb)
+    sim, stats = simgw.run_session(kind, scenario, status_cb=scb, client_kwargs={"build_network_map": True} if mapping else None)
     return sim, stats, info
 
 
@@ -175,7 +192,7 @@ def check_recovery(sim, stats, info, acc, kind, fault, step, scb="ok"):
         acc.violation("no-reconnect-after-fault", f"{kind}: no CONNECTED after '{fault}' although the gateway accepts (statuses {st_after})", w)
         return
     newest = len(sim.conns) - 1
-    recv_new = [e for e in sim.trace if e["k"] == "recv" and e["src"] == 100 + newest]
+    recv_new = [e for e in sim.trace if e["k"] == "recv" and e["src"] == 100 + newest and e["pgn"] == FRAME_PGN]
     if newest == info["conn_at_fault"]:
         acc.violation("no-new-connection-after-fault", f"{kind}: CONNECTED reported but no new connection was opened", w)
         return
@@ -185,7 +202,7 @@ def check_recovery(sim, stats, info, acc, kind, fault, step, scb="ok"):
     stale = [e for e in sim.trace if e["k"] == "recv" and e["src"] >= 200]
     if stale:
         acc.violation("older-connection-still-delivers", f"{kind}: data fed to an older connection was delivered after a newer one was CONNECTED", w)
-    dup = [e for e in sim.trace if e["k"] == "recv" and e["src"] == 100 + newest]
+    dup = [e for e in sim.trace if e["k"] == "recv" and e["src"] == 100 + newest and e["pgn"] == FRAME_PGN]
     if len(dup) > 1:
         acc.violation("frame-delivered-twice", f"{kind}: frame on the new connection delivered {len(dup)} times", w)
     if info.get("second_injected"):
@@ -429,12 +446,16 @@ def run_shard(spec, acc):
         return
     fault = spec["fault"]
     scb = spec.get("scb", "ok")
+    mapping = bool(spec.get("mapping"))
     # baseline length: steps until the first connection is idle in steady state
-    sim0, stats0, _ = fault_session(kind, "none", 10 ** 9, settle=1.0, scb=scb)
+    sim0, stats0, _ = fault_session(kind, "none", 10 ** 9, settle=1.0 if not mapping else 8.0, scb=scb, mapping=mapping)
     if stats0["error"]:
         acc.inconclusive_because(f"simulator baseline: {stats0['error']}")
         return
-    steady = next((e["s"] for e in sim0.trace if e["k"] == "recv" and e["src"] == 100), 40) + 6
+    steady = next((e["s"] for e in sim0.trace if e["k"] == "recv" and e["src"] == 100 and e["pgn"] == FRAME_PGN), 40) + 6
+    if mapping:
+        # include the seeding period (sends at +2, +4, +6 virtual s): steps up to the last seeding write
+        steady = max([e["s"] for e in sim0.trace if e["k"] == "write"] + [steady]) + 4
     steps = list(range(0, steady + 1))
     if quick and len(steps) > 40:
         steps = steps[:30] + steps[30::3]
@@ -442,8 +463,10 @@ def run_shard(spec, acc):
     if kind == "actisense":
         seconds = ["reset", "eof"]
     for k_, step in enumerate(steps):
-        sim, stats, info = fault_session(kind, fault, step, scb=scb)
+        sim, stats, info = fault_session(kind, fault, step, scb=scb, mapping=mapping)
         check_recovery(sim, stats, info, acc, kind, fault, step, scb)
+        if mapping:
+            continue
         if not quick or k_ % 4 == 0:
             # the same session with another fault a few seconds after the first recovery
             sec = (seconds[k_ % len(seconds)], 8.0 + (k_ % 5) * 0.37)
